@@ -3873,7 +3873,15 @@ func _select(n *node) {
 		}
 	}
 
+	// dirs holds the direction of each comm clause. It is computed once and is read-only
+	// at run time: the select cases themselves must be built for each execution, as the
+	// same statement may be executed concurrently by several goroutines.
+	dirs := cases
+
 	n.exec = func(f *frame) bltn {
+		cases := make([]reflect.SelectCase, nbClause+1)
+		copy(cases, dirs)
+
 		f.mutex.RLock()
 		cases[nbClause] = f.done
 		f.mutex.RUnlock()
